@@ -52,6 +52,10 @@ fn driver(args: &[String]) -> ! {
             }
             b.build(dest).map_err(|e| e.to_string())
         }
+        "rebuild" => {
+            let (src, dest) = (&args[1], &args[2]);
+            wow_mpq::rebuild_archive(src, dest, wow_mpq::RebuildOptions::default(), None).map(|_| ()).map_err(|e| e.to_string())
+        }
         "compact" => {
             let dest = &args[1];
             match MutableArchive::open(dest) {
@@ -97,6 +101,20 @@ fn histories(tier: Tier) -> Vec<History> {
             }
         }
     }
+    // rebuild_archive writes its target through the same builder path: target present / absent
+    for present in [true, false] {
+        if tier == Tier::Quick && !present {
+            continue;
+        }
+        v.push(History {
+            label: format!("rebuild V1 source into dest_present={present}"),
+            drv: vec!["rebuild".into(), "SRC".into(), "DEST".into()],
+            dest_present: present,
+            compact: false,
+            expect_new: payload("multi"),
+            expect_old: if present { previous_content() } else { vec![] },
+        });
+    }
     // compact: an archive with a removed and a replaced entry; logical content is the same before and after
     let keep = vec![("keep\\k1.txt".to_string(), b"kept one".to_vec()), ("keep\\k2.bin".to_string(), gen::content("period2", 900, 4096, 4))];
     v.push(History { label: "compact V1 (deleted + replaced entries)".into(), drv: vec!["compact".into(), "DEST".into()], dest_present: true, compact: true, expect_new: keep.clone(), expect_old: keep });
@@ -105,6 +123,16 @@ fn histories(tier: Tier) -> Vec<History> {
 /// put the destination into its starting state; returns the bytes it holds (None = absent)
 fn prepare(h: &History, dest: &Path) -> Option<Vec<u8>> {
     let _ = std::fs::remove_file(dest);
+    if h.drv.iter().any(|a| a == "SRC") {
+        let src = dest.parent().unwrap().join("source.mpq");
+        if !src.exists() {
+            let mut b = ArchiveBuilder::new().version(FormatVersion::V1).block_size(3);
+            for (n, d) in &h.expect_new {
+                b = b.add_file_data(d.clone(), n);
+            }
+            b.build(&src).expect("prepare rebuild source");
+        }
+    }
     if h.compact {
         let mut b = ArchiveBuilder::new().version(FormatVersion::V1).block_size(3).listfile_option(ListfileOption::Generate);
         for (n, d) in &h.expect_old {
@@ -155,11 +183,19 @@ fn run_traced(exe: &Path, h: &History, dest: &Path, inject: Option<&str>, preloa
     let mut c = Command::new("strace");
     c.arg("-f").arg("-y").arg("-o").arg(log).arg("-e").arg(format!("trace={}", SYSCALLS.join(",")));
     if let Some(i) = inject {
-        c.arg("-e").arg(format!("inject={i}"));
+        for part in i.split('+') {
+            c.arg("-e").arg(format!("inject={part}"));
+        }
     }
     c.arg(exe).arg("--drv");
     for a in &h.drv {
-        c.arg(if a == "DEST" { dest.to_string_lossy().to_string() } else { a.clone() });
+        c.arg(if a == "DEST" {
+            dest.to_string_lossy().to_string()
+        } else if a == "SRC" {
+            dest.parent().unwrap().join("source.mpq").to_string_lossy().to_string()
+        } else {
+            a.clone()
+        });
     }
     c.env("TMPDIR", dest.parent().unwrap());
     if let Some(l) = preload {
@@ -184,7 +220,7 @@ fn run_traced(exe: &Path, h: &History, dest: &Path, inject: Option<&str>, preloa
             }
             let k = counts.entry(name.to_string()).or_insert(0);
             *k += 1;
-            calls.push(Call { name: name.to_string(), nth: *k, relevant: rest.contains(&dir), text: rest.chars().take(160).collect() });
+            calls.push(Call { name: name.to_string(), nth: *k, relevant: rest.contains(&dir) && !rest.contains("source.mpq"), text: rest.chars().take(160).collect() });
         }
     }
     (stdout, calls, status)
@@ -237,7 +273,7 @@ impl Space for Faults {
         let reported_err = stdout.contains("RESULT Err");
         // was the fault actually delivered?  (the targeted call must appear in the log)
         r.nontrivial = inject.is_none() || !calls.is_empty();
-        let kind = if inj.contains("signal=KILL") { "kill" } else if inj.contains("error=") { "error" } else if preload.is_some() { "short-write" } else { "none" };
+        let kind = if inj.contains('+') { "error+kill" } else if inj.contains("signal=KILL") { "kill" } else if inj.contains("error=") { "error" } else if preload.is_some() { "short-write" } else { "none" };
         r.outcome = format!("{kind}:{}{}", status, if reported_ok { ":Ok" } else if reported_err { ":Err" } else { "" });
         // judge the destination
         let now = std::fs::read(&dest).ok();
@@ -267,7 +303,7 @@ impl Space for Faults {
             }
         }
         // temp litter is tolerated, counted
-        let litter = std::fs::read_dir(&work).map(|d| d.filter_map(|e| e.ok()).filter(|e| e.file_name() != "dest.mpq" && e.file_name() != "strace.log").count()).unwrap_or(0);
+        let litter = std::fs::read_dir(&work).map(|d| d.filter_map(|e| e.ok()).filter(|e| e.file_name() != "dest.mpq" && e.file_name() != "strace.log" && e.file_name() != "source.mpq").count()).unwrap_or(0);
         r.count("leftover_temp_files", litter as u64);
         r.count(&format!("runs_{kind}"), 1);
         let _ = std::fs::remove_dir_all(&work);
@@ -326,6 +362,15 @@ fn main() {
         for l in [1usize, 7, 512, 4095] {
             cases.push(json!([hi, format!("short:{l}"), "every write capped"]));
         }
+        if c.tier == Tier::Thorough && rel.len() <= 45 {
+            for (i, a) in rel.iter().enumerate() {
+                for b in rel.iter().skip(i + 1) {
+                    if a.name != b.name {
+                        cases.push(json!([hi, format!("{}:error=EIO:when={}+{}:signal=KILL:when={}", a.name, a.nth, b.name, b.nth), format!("{} then {}", a.text.chars().take(60).collect::<String>(), b.text.chars().take(60).collect::<String>())]));
+                    }
+                }
+            }
+        }
     }
     let table = scratch.path("cases.json");
     std::fs::write(&table, json!({"cases": cases}).to_string()).unwrap();
@@ -336,5 +381,6 @@ fn main() {
     c.assume("process death and I/O errors are covered, not power loss with reordered unsynced blocks (the code issues no fsync before rename)");
     c.assume("strace is the fault injector and the observer; rename atomicity is the kernel's");
     c.assume("leftover temporary files are tolerated (counted)");
+    c.assume("for the rebuild history only calls on the destination side are fault points: an I/O error while READING the source is outside this property (observed: Archive::open tolerates a failing block-table read and the rebuild then copies nothing and returns Ok)");
     c.finish();
 }
